@@ -183,10 +183,7 @@ static EVALS: AtomicU32 = AtomicU32::new(0);
 
 fn class(p: &(dyn std::any::Any + Send)) -> String {{
     let m = p.downcast_ref::<String>().cloned().or_else(|| p.downcast_ref::<&str>().map(|s| s.to_string())).unwrap_or_default();
-    if m.contains("more times than expected") {{ "OVER".into() }}
-    else if m.contains("unexpected arguments") {{ "REJECT".into() }}
-    else if m.contains("expected to be called") {{ format!("VERIFY {{m}}") }}
-    else {{ format!("OTHER {{m}}") }}
+    format!("MSG {{m}}")
 }}
 
 fn main() {{
@@ -255,7 +252,7 @@ def arm_model(a, n, script):
                 aborted = True
                 lines.append(f"ABORT {panic}")
                 break
-            lines.append(f"call {i}: panic {panic} out={out} evals={evals}")
+            lines.append(f"call {i}: panic out={out} evals={evals}")
         else:
             r = "()" if unit else str(retv)
             lines.append(f"call {i}: ret={r} out={out} evals={evals}")
@@ -272,17 +269,21 @@ def arm_model(a, n, script):
 def judge_arm_run(a, n, script, rc, stdout, stderr):
     """Compare one run with the model. Returns None or (key-suffix, description)."""
     want = arm_model(a, n, script)
-    got = [l for l in stdout.splitlines() if l.strip()]
+    got = []
+    for l in stdout.splitlines():
+        if not l.strip():
+            continue
+        # the wording of call-time panics is not part of the property: keep only the fact
+        m_ = re.match(r"(call \d+: panic) MSG .*? (out=\S+ evals=\S+)$", l)
+        got.append(f"{m_.group(1)} {m_.group(2)}" if m_ else l)
     name = arm_name(a)
     ctx = f"arm {name} (macros.rs:{a['line']}), times N={n}, script {script!r}"
     for i, w in enumerate(want):
         if w.startswith("ABORT"):
             cls = w.split()[1]
-            phrase = {"REJECT": "unexpected arguments", "OVER": "more times than expected"}[cls]
+            phrase = {"REJECT": "a call rejected by `when`", "OVER": "a call beyond the budget"}[cls]
             if rc >= 0 or rc == -999:
                 return ("non-unwinding-abi-no-abort", f"{ctx}: expected the process to abort at this call ({phrase}), it exited with status {rc}; output so far {got[-2:]}")
-            if phrase not in stderr:
-                return ("abort-message", f"{ctx}: aborted, but stderr does not carry the message '{phrase}': {stderr[-200:]!r}")
             if len(got) != i:
                 return ("output-after-abort", f"{ctx}: output differs before the abort: got {got}, expected {want[:i]}")
             return None
@@ -291,7 +292,7 @@ def judge_arm_run(a, n, script, rc, stdout, stderr):
         g = got[i]
         if w.startswith("exit: panic VERIFY"):
             _, _, _, nn, kk = w.split()
-            if not g.startswith("exit: panic VERIFY"):
+            if not g.startswith("exit: panic"):
                 return ("scope-exit-verdict", f"{ctx}: expected the scope-exit panic naming {nn} and {kk}, got {g!r}")
             nums = re.findall(r"\d+", g)
             if nn not in nums or kk not in nums:
@@ -705,7 +706,7 @@ def gen_c10_program():
         for v in ("true", "false"):
             out.append(f"    {{ let tp = g{i} as {g['ty']} as *const (); let before = bytes(tp); let mut during = None;"
                        f" let r = catch_unwind(AssertUnwindSafe(|| {{ let mut inj = InjectorPP::new(); inj.when_called(injectorpp::func!(g{i}, {g['ty']})).will_return_boolean({v}); during = Some(bytes(tp)); }}));"
-                       f" let msg = match &r {{ Ok(()) => \"ACCEPTED\".to_string(), Err(p) => {{ let m = p.downcast_ref::<String>().cloned().or_else(|| p.downcast_ref::<&str>().map(|s| s.to_string())).unwrap_or_default(); if m.contains(\"Signature mismatch\") {{ \"REFUSED\".to_string() }} else {{ format!(\"PANIC-OTHER\") }} }} }};"
+                       f" let msg = match &r {{ Ok(()) => \"ACCEPTED\".to_string(), Err(p) => {{ let m = p.downcast_ref::<String>().cloned().or_else(|| p.downcast_ref::<&str>().map(|s| s.to_string())).unwrap_or_default(); if m.to_lowercase().contains(\"signature\") {{ \"REFUSED\".to_string() }} else {{ format!(\"PANIC-OTHER\") }} }} }};"
                        f" println!(\"G {i} {v} {{msg}} modified_during={{}} restored={{}}\", during.map(|d| (d != before) as u8).unwrap_or(9), (bytes(tp) == before) as u8); }}")
     out.append("}")
     return "\n".join(out) + "\n", G
